@@ -54,6 +54,7 @@ class Group:
         self.kani_norm = {}
         self.separate = False
         self.helper = False
+        self.record_fmt = []     # files in which write!(dst, "lit", args..) also records the literal and its integer arguments (K2)
         self.strip_tracing = []  # files in which tracing attributes / macro statements are removed (K1)
         self.harnesses = []
         self._parse()
@@ -72,6 +73,8 @@ class Group:
                 self.helper = True     # no harnesses of its own: code other groups of the same property use; always spliced
             elif s.startswith("//@ separate"):
                 self.separate = True   # spliced and run in its own scratch copy (its stubs / contracts would clash with another group's)
+            elif s.startswith("//@ record-fmt "):
+                self.record_fmt.append(s.split(None, 2)[2].strip())
             elif s.startswith("//@ strip-tracing "):
                 self.strip_tracing.append(s.split(None, 2)[2].strip())
             elif s.startswith("//@ attrs "):
@@ -168,6 +171,68 @@ def strip_tracing(text):
     return text, n
 
 
+KFMT = r"""
+// ---- K2 (verification scratch copy only): write!(dst, "literal", args..) is routed through kwrite!, which records the format
+// literal and every integer / char argument and then performs the real write! - unless a harness switched the real write off,
+// in which case the record stands for the formatted bytes (core::fmt is outside CBMC's reach)
+#[allow(unused_macros)]
+macro_rules! kwrite {
+    ($dst:expr, $fmt:literal $(, $arg:expr)* $(,)?) => {{
+        #[cfg(kani)]
+        {
+            #[allow(unused_imports)]
+            use $crate::MODPATH::kfmt_rec::{KInt as _, KOther as _};
+            $crate::MODPATH::kfmt_rec::rec_fmt($fmt);
+            $( (&$crate::MODPATH::kfmt_rec::W(&$arg)).krec(); )*
+        }
+        if $crate::MODPATH::kfmt_rec::real() { write!($dst, $fmt $(, $arg)*) } else { Ok(()) }
+    }};
+    ($($t:tt)*) => { write!($($t)*) };
+}
+#[allow(unused, static_mut_refs)]
+pub(crate) mod kfmt_rec {
+    pub static mut REAL: bool = true;
+    pub static mut NF: usize = 0;
+    pub static mut FMTS: [&'static str; 8] = [""; 8];
+    pub static mut NA: usize = 0;
+    pub static mut ARGS: [i128; 16] = [0; 16];
+    pub static mut OTHERS: usize = 0;
+    pub fn real() -> bool { unsafe { REAL } }
+    pub fn rec_fmt(f: &'static str) { unsafe { if NF < 8 { FMTS[NF] = f; } NF += 1; } }
+    pub fn rec_int(v: i128) { unsafe { if NA < 16 { ARGS[NA] = v; } NA += 1; } }
+    pub struct W<'a, T>(pub &'a T);
+    pub trait KInt { fn krec(&self); }
+    pub trait KOther { fn krec(&self); }
+    macro_rules! kint { ($($t:ty),*) => { $( impl KInt for W<'_, $t> { fn krec(&self) { rec_int(*self.0 as i128) } } )* } }
+    kint!(u8, u16, u32, u64, usize, i8, i16, i32, i64, isize);
+    impl KInt for W<'_, char> { fn krec(&self) { rec_int(*self.0 as u32 as i128) } }
+    // a string argument is recorded as its length and its first byte (enough for the one-letter flags the encoder passes)
+    impl KInt for W<'_, &str> { fn krec(&self) { let b = self.0.as_bytes(); rec_int(((b.len() as i128) << 8) | (if b.len() > 0 { b[0] as i128 } else { 0 })) } }
+    impl<T> KOther for &W<'_, T> { fn krec(&self) { unsafe { OTHERS += 1; } } }
+}
+"""
+
+
+def record_fmt(text, rel):
+    """K2: see KFMT. Returns (text, count)."""
+    import rustscan as RS
+    m = RS.mask(text)
+    out, pos, n = [], 0, 0
+    for mm in re.finditer(r"(?<![\w!])write!\s*\(", m):
+        out.append(text[pos:mm.start()]); out.append("k"); pos = mm.start(); n += 1
+    out.append(text[pos:])
+    modpath = rel[len("src/"):-len(".rs")].replace("/", "::")
+    if modpath.endswith("::mod"):
+        modpath = modpath[:-5]
+    body = "".join(out)
+    # the recorder goes after the file's leading inner attributes / inner doc comments
+    lines = body.split("\n")
+    k = 0
+    while k < len(lines) and (not lines[k].strip() or lines[k].lstrip().startswith(("//", "#!["))):
+        k += 1
+    return "\n".join(lines[:k]) + "\n" + KFMT.replace("MODPATH", modpath) + "\n".join(lines[k:]), n
+
+
 def splice(scratch_repo, groups):
     by_file = {}
     for g in groups:
@@ -176,7 +241,7 @@ def splice(scratch_repo, groups):
     for g in groups:
         for f, fn, attr_lines in g.attrs:
             attr_files.setdefault(f, []).append((fn, attr_lines))
-    strip_files = [f for g in groups for f in g.strip_tracing]
+    strip_files = [f for g in groups for f in g.strip_tracing] + [f for g in groups for f in g.record_fmt]
     for f in set(list(by_file) + list(attr_files) + strip_files):
         path = os.path.join(scratch_repo, f)
         if not os.path.exists(path):
@@ -188,6 +253,11 @@ def splice(scratch_repo, groups):
             for g in groups:
                 if f in g.strip_tracing:
                     g.kani_norm["K1 tracing attributes / log statements removed in the scratch copy (logging only; kani-compiler crashes on tracing's callsite code)"] = n_tr
+        if any(f in g.record_fmt for g in groups):
+            text, n_w = record_fmt(text, f)
+            for g in groups:
+                if f in g.record_fmt:
+                    g.kani_norm["K2 write!(dst, literal, args..) routed through a recorder of the literal and its integer arguments (arguments evaluated twice; the real write! still runs unless the harness switches it off)"] = n_w
         for fn, attr_lines in attr_files.get(f, []):
             text = insert_attrs(text, fn, attr_lines, f)
         for g in by_file.get(f, []):
